@@ -87,7 +87,7 @@ Proof.
   intros l. destruct (at_uid mb u l); reflexivity.
 Qed.
 
-Lemma move_message_good s msg src d fl : Inv s -> Good s (fst (move_message s msg src d fl)).
+Lemma move_message_good s msg src su d fl : Inv s -> Good s (fst (move_message s msg src su d fl)).
 Proof.
   intros I. unfold move_message. destruct (find_name s d) as [m|] eqn:Fn; [|now apply Good_refl].
   destruct (mb_id m =? src); [now apply Good_refl|].
@@ -103,11 +103,11 @@ Proof.
   intros I. unfold uidstore_one. destruct (find_link s sel u) as [l|]; [|now apply Good_refl].
   assert (SF : forall fl, Good s (set_flags s sel u fl)) by (intros; apply Good_core_eq; auto; apply set_flags_core).
   destruct (negb (fmem JUNK (lk_flags l)) && fmem JUNK (calc_flags (lk_flags l) new mode)).
-  - pose proof (move_message_good s (lk_msg l) sel SPAM (fremove NONJUNK (calc_flags (lk_flags l) new mode)) I) as Q.
-    destruct (move_message s (lk_msg l) sel SPAM _) as [s1 ok]. destruct ok; [exact Q | apply SF].
+  - pose proof (move_message_good s (lk_msg l) sel u SPAM (fremove NONJUNK (calc_flags (lk_flags l) new mode)) I) as Q.
+    destruct (move_message s (lk_msg l) sel u SPAM _) as [s1 ok]. destruct ok; [exact Q | apply SF].
   - destruct (negb (fmem NONJUNK (lk_flags l)) && fmem NONJUNK (calc_flags (lk_flags l) new mode)).
-    + pose proof (move_message_good s (lk_msg l) sel INBOX (fremove JUNK (calc_flags (lk_flags l) new mode)) I) as Q.
-      destruct (move_message s (lk_msg l) sel INBOX _) as [s1 ok]. destruct ok; [exact Q | apply SF].
+    + pose proof (move_message_good s (lk_msg l) sel u INBOX (fremove JUNK (calc_flags (lk_flags l) new mode)) I) as Q.
+      destruct (move_message s (lk_msg l) sel u INBOX _) as [s1 ok]. destruct ok; [exact Q | apply SF].
     + apply SF.
 Qed.
 
